@@ -44,7 +44,16 @@ def run_h(exe, args, variant, timeout):
     return json.loads(last[-1])
 
 
-def explore(ck, tier, variants_cover, variants_walk, pid_tag, cfg=None, ops=(False, True), budget=None):
+def opargs(op):
+    # OpModes of History.tla: none / own (every generator gets an operation object of its own) / shared (one object for all)
+    return ["--shared-op"] if op == "shared" else ["--with-op"] if op else []
+
+
+def optag(op):
+    return ",shared-op" if op == "shared" else ",op" if op else ""
+
+
+def explore(ck, tier, variants_cover, variants_walk, pid_tag, cfg=None, ops=(False, True, "shared"), budget=None):
     thorough = tier == "thorough"
     wd = vlib.workdir(pid_tag)
     dump = os.path.join(wd, "history")
@@ -64,12 +73,12 @@ def explore(ck, tier, variants_cover, variants_walk, pid_tag, cfg=None, ops=(Fal
     jobs = []
     for v in variants_cover:
         for op in ops:
-            jobs.append((v, ["--graph", gpath, "--cover", "--budget", str(budget or (600 if thorough else 100))] + (["--with-op"] if op else []),
-                         "cover(%s%s%s)" % (v, ",op" if op else "", "," + cfg if cfg else "")))
+            jobs.append((v, ["--graph", gpath, "--cover", "--budget", str(budget or (600 if thorough else 100))] + opargs(op),
+                         "cover(%s%s%s)" % (v, optag(op), "," + cfg if cfg else "")))
     for v in variants_walk:
         for op in ops:
-            jobs.append((v, ["--graph", gpath, "--walks", str(4000 if thorough else 400), "--walklen", "14", "--seed", str(ck.seed + (1 if op else 0)),
-                             "--budget", "400" if thorough else "60"] + (["--with-op"] if op else []), "walks(%s%s)" % (v, ",op" if op else "")))
+            jobs.append((v, ["--graph", gpath, "--walks", str(4000 if thorough else 400), "--walklen", "14", "--seed", str(ck.seed + (2 if op == "shared" else 1 if op else 0)),
+                             "--budget", "400" if thorough else "60"] + opargs(op), "walks(%s%s)" % (v, optag(op))))
     results = []
     with cf.ThreadPoolExecutor(max_workers=len(jobs)) as ex:
         futs = [(ex.submit(run_h, exes[v], args, v, 900), tag) for (v, args, tag) in jobs]
